@@ -113,6 +113,14 @@ Theorem C06_source_registry_remove : ltac:(let t := type of SrcTie6P.ContextInst
 Proof. exact SrcTie6P.ContextInstances_remove_tie. Qed.
 
 
+(* ---- source tie, seventh wave: ContextInstances::update (the loop over groups; an exclusive group updates every (entity, instance)
+   with its own entity, a shared one its single instance with all holders) regenerated from src/input_context.rs equals
+   Model/Registry.reg_update (registry, events, consumed set), given that the opaque instance update behaves like the model's ---- *)
+From BEI Require Proofs.SrcTie7P.
+Theorem C06_source_registry_update : ltac:(let t := type of SrcTie7P.ContextInstances_update_tie in exact t).
+Proof. exact SrcTie7P.ContextInstances_update_tie. Qed.
+
+
 Print Assumptions C06_bsearch_position.
 Print Assumptions C06_insert_keeps_order.
 Print Assumptions C06_any_history.
@@ -132,3 +140,4 @@ Print Assumptions C06_source_registry_add.
 Print Assumptions C06_source_registry_index.
 Print Assumptions C06_source_registry_search.
 Print Assumptions C06_source_registry_remove.
+Print Assumptions C06_source_registry_update.
